@@ -1662,6 +1662,7 @@ error:
 		free(opttitle);
 	if (comment)
 		free(comment);
+	cfg_free_value(&funcopt);	/* arguments of an unfinished function call */
 
 	return STATE_ERROR;
 }
